@@ -350,6 +350,38 @@ impl Space for Display {
             let (y, m, d) = SECOND_DAYS[(j / 24) as usize];
             let hour = (j % 24) as u32;
             // thorough: every second; quick: every second of the first and last minute of the hour + every 61st second
+            // instants that are not whole seconds: whether the library rounds or truncates is not pinned, but the
+            // instant it shows lies within one second of the instant the serial denotes (never a day away)
+            if y < 9999 || hour < 23 {
+                for (secs, tenth) in [(hour * 3600 + 3599, 4u32), (hour * 3600 + 3599, 5), (hour * 3600 + 3599, 6), (hour * 3600 + 3599, 9), (hour * 3600 + 1800, 5)] {
+                    sink.evaluations += 1;
+                    let day = serial_day(y, m, d);
+                    let serial = day as f64 + (secs as f64 + tenth as f64 / 10.0) / 86400.0;
+                    let case = json!({"kind":"display-subsecond","y":y,"m":m,"d":d,"secs":secs,"tenths":tenth,"serial":serial,"format":MAIN_FMT});
+                    match show_cell(serial, MAIN_FMT, true) {
+                        Err(msg) => sink.violations.push(Violation::new("display", &format!("panic:{}", panic_class(&msg)), &["subsecond"], case, msg)),
+                        Ok((a, b, c)) => {
+                            sink.obs(&a);
+                            let near = [0u32, 1].iter().any(|up| {
+                                let t = secs + up;
+                                if t < 86400 {
+                                    a == stamp(y, m, d, t)
+                                } else {
+                                    // first second of the next day
+                                    let (ny, nm, nd) = if d < month_len(y, m) { (y, m, d + 1) } else if m < 12 { (y, m + 1, 1) } else { (y + 1, 1, 1) };
+                                    a == stamp(ny, nm, nd, 0)
+                                }
+                            });
+                            if !near {
+                                sink.violations.push(Violation::new("display", "subsecond-instant-shown-more-than-a-second-away", &["subsecond"], case.clone(), format!("serial {} ({}-{:02}-{:02} second {}.{} of the day) displays {:?}", serial, y, m, d, secs, tenth, a)));
+                            }
+                            if b != a || c != a {
+                                sink.violations.push(Violation::new("display", "entry-points-disagree", &["subsecond"], case, format!("Worksheet::get_formatted_value={:?} Cell::get_formatted_value={:?} to_formatted_string={:?}", a, b, c)));
+                            }
+                        }
+                    }
+                }
+            }
             for secs in hour * 3600..(hour + 1) * 3600 {
                 let k = secs % 3600;
                 let full_day = self.thorough && [(1900, 1, 1), (2000, 2, 29), (9999, 12, 31)].contains(&(y, m, d));
